@@ -476,6 +476,26 @@ def conv_mext(fr):
     if ca is not None and ca['result'] is not None:
         left = {r['id'] for r in ca['result']}
         cal = [tag(o) for o, s_, l_, t in ca['in'] if o not in left]
+    # which value crossed which destination (for the mechanism note): replay add_to on spans + types
+    crossings = []
+    objs = {}
+    for c in steps:
+        for e in c.get('keep', []):
+            objs[id(e)] = e
+    cur = []
+    for c in steps:
+        for s_, l_, o in c['src']:
+            ov = [d for d in cur if d[0] < s_ + l_ and s_ < d[0] + d[1]]
+            cov = [d for d in ov if (s_ < d[0] and d[0] + d[1] <= s_ + l_) or (s_ <= d[0] and d[0] + d[1] < s_ + l_)]
+            if not ov:
+                cur.append((s_, l_, o))
+            elif cov:
+                for d in ov:
+                    if d not in cov:
+                        crossings.append([getattr(objs.get(o), 'type', '?'), [s_, l_], getattr(objs.get(d[2]), 'type', '?'), [d[0], d[1]]])
+                i0 = cur.index(cov[0])
+                cur = [d for d in cur if d not in cov]
+                cur.insert(i0, (s_, l_, o))
     op = '\t'.join(['mg.ext', cps(src), '|'.join(fmt_items(i) for i in inputs) if inputs else '_',
                     fmt_items([(t,) for t in unspec]), fmt_items([(t,) for t in ambig]), fmt_items(ops),
                     fmt_items([(t,) for t in cal])])
@@ -486,7 +506,8 @@ def conv_mext(fr):
                  r['text'] == src[r['start']:r['start'] + r['length']] for r in fr['result'])
     return {'kind': 'mext', 'op': op, 'impl': impl, 'src': src, 'n_results': len(fr['result']),
             'hyp': {'disjoint_out': disjoint, 'inside_and_slice_out': inside, 'mods': len(ops)},
-            'problem': None, 'ext': type(ext).__name__}
+            'problem': None, 'ext': type(ext).__name__, 'crossings': crossings,
+            'out_spans': [[r['start'], r['length'], r['type']] for r in fr['result']], 'n_mods': len(ops)}
 
 
 def conv_zhaddto(fr):
@@ -616,9 +637,10 @@ def nwu_op(model, query):
             n += 1
         parts.append(fmt_items(its))
     op = 'sp.nwu\t' + ('|'.join(parts) if parts else '_')
+    op2 = 'sp.nwusym\t' + ('|'.join(parts) if parts else '_')
     res = model.parse(query)
     impl = [(r.start, r.end, r.text) for r in res]
-    return {'kind': 'nwu', 'op': op, 'impl_spans': impl, 'flat': flat, 'src': query, 'n_results': len(res),
+    return {'kind': 'nwu', 'op': op, 'op2': op2, 'impl_spans': impl, 'flat': flat, 'src': query, 'n_results': len(res),
             'hyp': {}, 'problem': None, 'ext': type(model).__name__, 'n_items': len(items)}
 
 
@@ -644,7 +666,7 @@ def _init_worker():
 def _strip_ops(ops):
     """keep only picklable, small fields"""
     keep = ('kind', 'op', 'impl', 'src', 'n_results', 'hyp', 'problem', 'ext', 'skipped', 'impl_spans', 'flat',
-            'n_items', 'strip_text')
+            'n_items', 'strip_text', 'crossings', 'out_spans', 'n_mods', 'op2')
     return [{k: o[k] for k in keep if k in o} for o in ops]
 
 
